@@ -427,6 +427,25 @@ func Eval(c Case) ([]string, string) {
 	return evalState(c)
 }
 
+// manualTypeStrings: the PostgreSQL interval types as the manual lists them - every field restriction,
+// and a seconds precision where the fields include seconds - whatever the registered specs declare.
+func manualTypeStrings(dialect string) []string {
+	var out []string
+	if dialect != "postgres" {
+		return nil
+	}
+	for _, f := range []string{"", " year", " month", " day", " hour", " minute", " second", " year to month", " day to hour", " day to minute", " day to second", " hour to minute", " hour to second", " minute to second"} {
+		out = append(out, "interval"+f)
+		if f != "" && !strings.HasSuffix(f, "second") {
+			continue // a precision goes with seconds only
+		}
+		for _, p := range []string{"0", "3", "6"} {
+			out = append(out, "interval"+f+"("+p+")")
+		}
+	}
+	return out
+}
+
 func cases(tier string) []Case {
 	var cs []Case
 	for _, cd := range codecs {
@@ -443,6 +462,15 @@ func cases(tier string) []Case {
 						cs = append(cs, Case{Dialect: cd.name, Kind: "type", Type: v})
 					}
 				}
+			}
+		}
+		// type strings written from the manual rather than from what the registry advertises: every
+		// parameterised spelling below that the dialect's ParseType accepts must survive the round
+		// trip, whether or not the registered spec declares the parameter.
+		for _, v := range manualTypeStrings(cd.name) {
+			if !seen[v] {
+				seen[v] = true
+				cs = append(cs, Case{Dialect: cd.name, Kind: "type", Type: v})
 			}
 		}
 		cs = append(cs, Case{Dialect: cd.name, Kind: "state"})
@@ -465,7 +493,7 @@ func cases(tier string) []Case {
 }
 
 func Run(r *report.Run) {
-	r.Rule = "per dialect codec (MySQL, PostgreSQL, SQLite): (a,c) every type spec of the exported TypeRegistry x parameter grid (size, precision/scale, time precision, unsigned, enum/set values, PostgreSQL arrays) written as a SQL type string: FormatType/ParseType fixpoint, and a nullable column of that type through MarshalHCL -> EvalHCLBytes: same formatted type, empty diff both ways, identical bytes when marshalled again; (b) every state of the differ universe (base, base+1 edit or equivalence; thorough: +2 edits): empty diff both ways, equal element lists / attribute sets / formatted column types by our own comparison, identical bytes on re-marshal; (d) type strings of the grid whose bare name means 'no limit' (character varying, bit varying, numeric) must not parse to the same type as a parameterised spelling; non-trivial = case whose type string the dialect parses, or a state; distinct = (dialect, type | edits)"
+	r.Rule = "per dialect codec (MySQL, PostgreSQL, SQLite): (a,c) every type spec of the exported TypeRegistry x parameter grid (size, precision/scale, time precision, unsigned, enum/set values, PostgreSQL arrays; plus, independent of what the specs declare, every PostgreSQL interval field restriction, with a seconds precision {0, 3, 6} where the fields include seconds) written as a SQL type string: FormatType/ParseType fixpoint, and a nullable column of that type through MarshalHCL -> EvalHCLBytes: same formatted type, empty diff both ways, identical bytes when marshalled again; (b) every state of the differ universe (base, base+1 edit or equivalence; thorough: +2 edits): empty diff both ways, equal element lists / attribute sets / formatted column types by our own comparison, identical bytes on re-marshal; (d) type strings of the grid whose bare name means 'no limit' (character varying, bit varying, numeric) must not parse to the same type as a parameterised spelling; non-trivial = case whose type string the dialect parses, or a state; distinct = (dialect, type | edits)"
 	r.Assumptions = []string{
 		"type strings ParseType rejects are counted as skipped (parameter combination not valid for the type)",
 		"the MySQL table-level AUTO_INCREMENT counter is treated as runtime state (never exported by design) and removed before the round trip; the default index type BTREE counts as unset",
